@@ -706,8 +706,12 @@ func registerIntrinsics(in *Interp) {
 		return []Value{&TupleVal{Elems: []Value{in.fresh("env", "now_wall", 64, g), in.fresh("env", "now_ext", 64, g), &PtrVal{}}}}
 	}
 	I["time.Since"] = func(fr *Frame, g *Term, args []Value, site ssa.Instruction, fn *ssa.Function) []Value {
-		t := in.fresh("env", "since", 64, g)
-		return []Value{t}
+		// one symbolic, non-negative duration per run: wall-clock time does not advance during a run
+		if in.sinceVar == nil {
+			in.sinceVar = in.fresh("env", "since", 64, tTrue)
+			in.addAssume(tTrue, mkCmp(OpSle, mkConst(64, 0), in.sinceVar))
+		}
+		return []Value{in.sinceVar}
 	}
 	I["time.Until"] = I["time.Since"]
 	I["time.After"] = func(fr *Frame, g *Term, args []Value, site ssa.Instruction, fn *ssa.Function) []Value {
